@@ -645,7 +645,12 @@ func doReplay(spec Spec, path, tier string, seed int64) int {
 	ctx := newCtx()
 	ctx.ID, ctx.Tier, ctx.Seed, ctx.NShards, ctx.Replay = spec.ID, tier, seed, 1, true
 	fmt.Printf("replay: property=%s key=%s\nreplay: case=%s\n", spec.ID, v.Key, string(v.Case))
+	stdout := os.Stdout
 	spec.Replay(ctx, v.Case)
+	os.Stdout = stdout // drivers may silence the code under test
+	for _, k := range ctx.vorder {
+		fmt.Printf("replay: violation key=%s %s\n", k, ctx.violations[k].What)
+	}
 	if len(ctx.violations) > 0 {
 		fmt.Printf("replay: REPRODUCED (%d violation keys)\n", len(ctx.violations))
 		return 1
